@@ -21,6 +21,11 @@ rate    `c18 raterule`: the rule a combo's rate key is validated with (RegimeDef
 sweep   every valid example x every reference position (regime, addons, tags, combo category / rate / country,
         extension keys and values at every place, currencies, countries incl. addresses, tax ids, party regimes)
         x {every / a bounded sample of the OTHER DEFINED values of its kind, undefined values}.
+        category references include `tax.prices_include` (a category of the document's regime named by its code alone), also
+        put into the documents that leave it out.
+mixed   tax sets whose combos fall under different regimes (mixed_set_cases): a combo with a `country` override put in front of /
+        behind the combos of a set, the neighbouring combo without override then naming a category or rate key only the
+        override country defines; read-and-validate flow on every document, build flow on a sample.
 """
 import copy
 import glob
@@ -245,6 +250,10 @@ def positions(doc, view):
         pos.append(("tag", "$tags/%d" % i, t, None))
     for path, cat, rate, country, ext in combos:
         n = node_at(doc, path)
+        if isinstance(n, str):
+            # a member that names a category of the document's regime by its code alone (`tax/prices_include`)
+            pos.append(("category", path, n, None))
+            continue
         if not isinstance(n, dict):
             continue
         pos.append(("category", path + "/cat", n.get("cat"), None))
@@ -599,7 +608,46 @@ def undefined_specs(c, pools, bases, quick, npos, full=None):
                 specs.append((ei, {"kind": kind, "class": cls, "path": path, "old": old, "new": new, "detail": detail}))
         if view[2] in ("bill/invoice", "bill/order", "bill/delivery", "bill/payment") and not doc.get("$tags"):
             specs.append((ei, {"kind": "tag", "class": "undefined", "path": "$tags/0", "old": "", "new": "zz-unknown", "detail": "inserted"}))
+        pi = prices_include_specs(c, pools, ei, doc, view, quick)
+        if pi:
+            npos["category(inserted prices_include)"] = npos.get("category(inserted prices_include)", 0) + 1
+            specs += pi
     return specs
+
+
+def has_bill_tax(short):
+    """the document type has a `tax` member of type bill/tax (invoices, orders, deliveries): `tax.prices_include` names a category"""
+    m = schema_members(short).get("tax")
+    return isinstance(m, dict) and str(m.get("$ref", "")).endswith("/bill/tax")
+
+
+def insert_member(j, path, value):
+    """-> a copy of the example with the member at `path` set, the objects on the way created when absent"""
+    d = copy.deepcopy(j)
+    n = doc_of(d)
+    parts = path.split("/")
+    for p in parts[:-1]:
+        if not isinstance(n.get(p), dict):
+            n[p] = {}
+        n = n[p]
+    n[parts[-1]] = value
+    return d
+
+
+def prices_include_specs(c, pools, ei, doc, view, quick):
+    """a document that can say which tax its prices include (`tax.prices_include`, a category of its regime) and does not:
+    the member put in, naming undefined categories and a category only OTHER regimes define"""
+    if not has_bill_tax(view[2]) or not isinstance(doc, dict) or node_at(doc, "tax/prices_include") is not None:
+        return []
+    if doc.get("tax") is not None and not isinstance(doc.get("tax"), dict):
+        return []
+    rd = pools.pub.regimes.get(view[0])
+    own = {x.get("code") for x in L(rd, "categories")}
+    foreign = [x for x in pools.values("category", None)[0] if x not in own]
+    news = [(u, "undefined") for u in UNDEFINED["category"]]
+    if rd is not None and foreign:
+        news.append((c.rng.choice(foreign), "defined-other"))
+    return [(ei, {"kind": "category", "class": cls, "path": "tax/prices_include", "old": "", "new": new, "detail": "inserted-member"}) for new, cls in news]
 
 
 def build_case(bases, ei, mut):
@@ -607,9 +655,93 @@ def build_case(bases, ei, mut):
     if mut["detail"] == "inserted":
         d = copy.deepcopy(j)
         doc_of(d)["$tags"] = [mut["new"]]
+    elif mut["detail"] == "inserted-member":
+        d = insert_member(j, mut["path"], mut["new"])
     else:
         d = apply_mutation(j, mut["kind"], mut["path"], mut["old"], mut["new"], mut["detail"])
     return {"example": name, "mutation": mut, "document": d}
+
+
+def mixed_set_cases(c, pub, bases, quick, only=None):
+    """tax sets whose combos fall under DIFFERENT regimes, in every order: each combo's category and rate key belong to the regime
+    that applies to IT (its own `country` override, else the document's regime) whatever stands before or after it in the set.
+    every base x one tax set per place (lines/*/taxes, charges/*/taxes, ...: the longest) x override countries X {regimes that
+    define a category the document's regime does not, tax countries without a regime; quick: a seeded one of each} x a combo {category of X, country X,
+    percent} put in FRONT of / BEHIND the set x {nothing else changed (every reference resolves); the neighbouring combo WITHOUT
+    override renamed to a category only X defines / an undefined one; its rate key replaced by one only X's category has}.
+    -> cases for judge()"""
+    regs = {}
+    for d in pub.regime_list:
+        regs.setdefault(d.get("country"), d)
+    cats = lambda d: [x.get("code") for x in L(d, "categories")]
+    first_rates = lambda d, cat: {r.get("key").split("+")[0] for x in L(d, "categories") if x.get("code") == cat for r in L(x, "rates")}
+    no_regime = sorted(pub.tax - set(pub.regimes))
+    all_cats = pub.pool["category"]
+    out = []
+    for bi, (name, j, view) in enumerate(bases):
+        if only is not None and bi not in only:
+            continue
+        doc = doc_of(j)
+        if not isinstance(doc, dict):
+            continue
+        sets = {}
+        for path, cat, rate, country, ext in view[4]:
+            parent, _, last = path.rpartition("/")
+            l = node_at(doc, parent)
+            if last.isdigit() and isinstance(l, list) and l and all(isinstance(x, dict) for x in l):
+                sets[parent] = l
+        by_shape = {}
+        for parent in sorted(sets):
+            sh = re.sub(r"\d+", "*", parent)
+            if sh not in by_shape or len(sets[parent]) > len(sets[by_shape[sh]]):
+                by_shape[sh] = parent
+        chosen = sorted(by_shape.values()) if quick else sorted(sets)
+        rd = pub.regimes.get(view[0])
+        own = set(cats(rd))
+        for parent in chosen:
+            combos = sets[parent]
+            used = {x.get("cat") for x in combos}
+            xs_reg = sorted(k for k, d in regs.items() if d is not rd and (set(cats(d)) - own) and len(set(cats(d)) - used) >= 2)
+            xs = (c.rng.sample(xs_reg, min(1, len(xs_reg))) + c.rng.sample(no_regime, min(1, len(no_regime)))) if quick \
+                else xs_reg + c.rng.sample(no_regime, min(5, len(no_regime)))
+            for X in xs:
+                xd = regs.get(X)
+                places = [(0, 0), (len(combos), len(combos) - 1)] if quick else \
+                    [(at, nb) for at in range(len(combos) + 1) for nb in range(len(combos))]
+                for at, nb in places:
+                    ncombo = combos[nb]
+                    if ncombo.get("country"):
+                        continue                        # the neighbour is a combo WITHOUT override: the document's regime applies to it
+                    if xd is not None:
+                        foreign = sorted(set(cats(xd)) - own - used)
+                        c2s = foreign[:1] if quick else foreign
+                        c1 = lambda c2: next((k for k in cats(xd) if k not in used and k != c2), None)
+                    else:
+                        foreign = [k for k in all_cats if k not in own and k not in used]
+                        c2s = ["QQ"] + (c.rng.sample(foreign, 1) if foreign else [])
+                        c1 = lambda c2: next((k for k in ["GST", "VAT", "ST"] if k not in used and k != c2), None)
+                    variants = [(None, None, c1(None), "defined")]
+                    variants += [("cat", c2, c1(c2), "undefined-here") for c2 in c2s]
+                    if xd is not None and ncombo.get("cat") in cats(xd):
+                        ks = sorted(first_rates(xd, ncombo.get("cat")) - first_rates(rd, ncombo.get("cat")))
+                        variants += [("rate", k, c1(None), "undefined-here") for k in (ks[:1] if quick else ks)]
+                    for member, newv, cfirst, cls in variants:
+                        if cfirst is None:
+                            continue
+                        ins = {"cat": cfirst, "country": X, "percent": "10.0%"}
+                        d = copy.deepcopy(j)
+                        l = node_at(doc_of(d), parent)
+                        old = ""
+                        if member:
+                            old = l[nb].get(member, "")
+                            l[nb][member] = newv
+                        l.insert(at, ins)
+                        ni = nb + (1 if at <= nb else 0)
+                        mut = {"kind": "mixed-set", "class": cls, "path": "%s/%d%s" % (parent, ni, "/" + member if member else ""),
+                               "old": old, "new": newv if member else cfirst, "detail": {"inserted": ins, "at": "%s/%d" % (parent, at)}}
+                        out.append({"example": "%s + combo {cat %s, country %s} put in at %s/%d" % (name, cfirst, X, parent, at),
+                                    "mutation": mut, "document": d})
+    return out
 
 
 def load_examples():
@@ -899,6 +1031,11 @@ def run(c):
             npos["tag(inserted)"] = npos.get("tag(inserted)", 0) + 1
             for new, cls in [("zz-unknown", "undefined"), (c.rng.choice(pools.values("tag", None)[0]), "defined-other")]:
                 specs.append((ei, {"kind": "tag", "class": cls, "path": "$tags/0", "old": "", "new": new, "detail": "inserted"}))
+        # documents that can name the tax their prices include and do not: `tax.prices_include` put in
+        pi = prices_include_specs(c, pools, ei, doc, view, quick)
+        if pi:
+            npos["category(inserted prices_include)"] = npos.get("category(inserted prices_include)", 0) + 1
+            specs += pi
         # a tag an addon offers for ANOTHER document type, with that addon switched on
         if view[2] in ("bill/order", "bill/delivery", "bill/payment", "bill/invoice") and not doc.get("$tags"):
             short = view[2]
@@ -919,6 +1056,8 @@ def run(c):
             if mut["detail"] == "inserted":
                 d = copy.deepcopy(j)
                 doc_of(d)["$tags"] = [mut["new"]]
+            elif mut["detail"] == "inserted-member":
+                d = insert_member(j, mut["path"], mut["new"])
             elif mut["detail"] == "inserted-with-addon":
                 d = copy.deepcopy(j)
                 dd = doc_of(d)
@@ -984,6 +1123,21 @@ def run(c):
     vo_specs = undefined_specs(c, pools, vo_valid, quick, vo_pos, full if quick else None)
     for i in range(0, len(vo_specs), 10000):
         judge(c, pub, [build_case(vo_valid, ei, mut) for ei, mut in vo_specs[i:i + 10000]], vo_stats, flow="validate-only")
+    # ---- tax sets mixing combos of different regimes (country overrides), both orders ----
+    t1 = time.time()
+    ms_stats, ms_build_stats = {}, {}
+    ms = mixed_set_cases(c, pub, vo_valid, quick)
+    for i in range(0, len(ms), 10000):
+        judge(c, pub, ms[i:i + 10000], ms_stats, flow="validate-only")
+    # the same sets through parse -> calculate -> validate (quick: on the documents swept in full)
+    msb = mixed_set_cases(c, pub, vo_valid, quick, only=full if quick else None)
+    for i in range(0, len(msb), 10000):
+        judge(c, pub, msb[i:i + 10000], ms_build_stats)
+    c.cov["mixed_sets"] = {"validate_only": {"documents": len(ms), "verdicts": ms_stats}, "build": {"documents": len(msb), "verdicts": ms_build_stats}}
+    c.cov["seconds"]["mixed_sets"] = round(time.time() - t1, 1)
+    if ms and not any(v.get("accepted") for v in ms_stats.get("mixed-set", {}).values()):
+        c.report("mixed-set stream: none of the %d documents with a combo of another country put into a tax set validates" % len(ms),
+                 {"machinery": "mixed-set stream"}, no_input=True)
     c.cov["validate_only"] = {"documents": len(bare), "valid": len(vo_valid), "positions": vo_pos, "mutated_documents": len(vo_specs), "verdicts": vo_stats}
     c.cov["seconds"]["validate_only"] = round(time.time() - t0, 1)
     if len(vo_valid) < len(bare) * 0.9:
@@ -1001,6 +1155,10 @@ def run(c):
                      "of the others (quick) or all of them (thorough); undefined values; a defined rate key followed by an undefined `+` part "
                      "(accepted by design); a defined rate key preceded by an undefined `+` part (`bogus+standard`, `zz-unknown+standard+x`, "
                      "`eqs+standard`)}; "
+                     "plus tax sets mixing regimes: one set per place of every calculated document x override countries (1 regime "
+                     "defining a category the document's regime lacks + 1 tax country without regime, seeded; thorough: all regimes) "
+                     "x a combo of that country in front / behind x {unchanged, neighbour's category only defined there or undefined, "
+                     "neighbour's rate key only defined there}; plus `tax.prices_include` put into every document that omits it; "
                      "plus the rate-key rule alone (RegimeDef.InCategoryRates on a key, no calculation before it): every published regime "
                      "x category x rate key x {itself, + undefined suffix, undefined word first, later component first} and the recorded "
                      "witness keys; "
